@@ -263,15 +263,23 @@ func plNRulesCoq(rs []*vfRule) string {
 	return vfList("nrule", items)
 }
 
-func (c *plCfg) Coq() string {
+func (c *plCfg) Coq() string { return c.CoqShared(nil) }
+
+// CoqShared renders cfg; with defs != nil the (constant) service table is
+// printed once per shard file as a shared definition.
+func (c *plCfg) CoqShared(defs *[]vfDef) string {
 	deadline := vfOpt("bool", c.Deadline != 0, vfBool(c.Deadline == 1))
 	tbl := make([]string, len(plServices))
 	for i, s := range plServices {
 		tbl[i] = vfPair(vfBytes(s.ID), plNRulesCoq(s.Rules))
 	}
+	svcTbl := vfList("bytes * list nrule", tbl)
+	if defs != nil {
+		svcTbl = vfShare(defs, "pl_svc", svcTbl)
+	}
 	args := []string{vfBool(c.ProtEnabled), deadline, vfBool(c.Filtering), vfBool(c.SB), vfBool(c.Par),
 		plModeCoq(c.Mode), vfAddrCoq(c.IP4), vfAddrCoq(c.IP6), vfN(uint64(c.TTL)), vfBool(c.AAAADisabled),
-		vfBytesList(c.Svcs), vfBool(c.SvcPaused), vfList("bytes * list nrule", tbl),
+		vfBytesList(c.Svcs), vfBool(c.SvcPaused), svcTbl,
 		plBlockHostCoq(c.SBHost), plBlockHostCoq(c.ParHost)}
 	return vfApp("mkCfg", append(args, c.round2Coq()...)...)
 }
@@ -707,6 +715,11 @@ type plQuery struct {
 	// Private / RDNS are what dnsproxy computes for the request.
 	Private bool
 	RDNS    netip.Prefix
+	// PrintAskedOnly: the case term lists only the Extra entries whose name
+	// the real server asked upstream (the term stays small when every entry
+	// is a random answer).  Sound for the comparison: a name the model asks
+	// and the server did not already differs in the compared call list.
+	PrintAskedOnly bool
 }
 
 type plObs struct {
@@ -842,7 +855,22 @@ func (ps *plServer) reloadFilters(t *testing.T) {
 }
 
 func plCaseCoqAs(ctor string, ps *plServer, q *plQuery, o *plObs) string {
+	return plCaseCoqShared(ctor, ps, q, o, nil)
+}
+
+// plCaseCoqShared renders the case; with defs != nil the parts that stay the
+// same over the queries of a configuration (cfg, the rule lists, the host
+// sets) are registered as shared definitions (named by their content) and
+// referred to by name: Coq spends its time elaborating the case terms, and
+// the configuration is nine tenths of a case.
+func plCaseCoqShared(ctor string, ps *plServer, q *plQuery, o *plObs, defs *[]vfDef) string {
 	c := ps.cfg
+	share := func(prefix, body string) string {
+		if defs == nil || len(body) < 48 {
+			return body
+		}
+		return vfShare(defs, prefix, body)
+	}
 	cl := c.clientFor(q.Addr)
 	clCoq := vfOpt("pclient", cl != nil, "")
 	if cl != nil {
@@ -859,25 +887,33 @@ func plCaseCoqAs(ctor string, ps *plServer, q *plQuery, o *plObs) string {
 		extraNames = append(extraNames, n)
 	}
 	sort.Strings(extraNames)
+	asked := map[string]bool{}
+	for _, call := range o.Calls {
+		asked[strings.ToLower(call.Name)] = true
+	}
 	for _, n := range extraNames {
+		if q.PrintAskedOnly && ctor == "CPipe" && !asked[n] {
+			continue
+		}
 		m := q.Extra[n]
 		e := vfOpt("resp", m != nil, "")
 		if m != nil {
 			e = vfOpt("resp", true, plRespCoq(m))
 		}
-		extra = append(extra, vfPair(vfBytes(n), e))
+		extra = append(extra, share("pl_x", vfPair(vfBytes(n), e)))
 	}
 	up := vfOpt("resp", q.Answer != nil, "")
 	if q.Answer != nil {
-		up = vfOpt("resp", true, plRespCoq(q.Answer))
+		up = vfOpt("resp", true, share("pl_r", plRespCoq(q.Answer)))
 	}
 	res := vfOpt("resp", o.Res != nil, "")
 	if o.Res != nil {
-		res = vfOpt("resp", true, plRespCoq(o.Res))
+		res = vfOpt("resp", true, share("pl_r", plRespCoq(o.Res)))
 	}
 	obs := vfApp("mkOutcome", res, plCallsCoq(o.Calls), plResultCoq(o.Result), vfBool(o.OrigKept), vfBool(o.Logged), vfBytes(o.ResQName))
-	return vfApp(ctor, c.Coq(), vfRulesCoq(c.Allow), vfRulesCoq(c.BlockRules()),
-		vfBytesList(c.SBHosts), vfBytesList(c.ParHosts), ps.plSSCoq(q), reqCoq,
+	cfgCoq := c.CoqShared(defs)
+	return vfApp(ctor, share("pl_cfg", cfgCoq), share("pl_al", vfRulesCoq(c.Allow)), share("pl_bl", vfRulesCoq(c.BlockRules())),
+		share("pl_sb", vfBytesList(c.SBHosts)), share("pl_par", vfBytesList(c.ParHosts)), ps.plSSCoq(q), reqCoq,
 		vfList("bytes * option resp", extra), up, obs)
 }
 
